@@ -87,6 +87,10 @@ def check(ctx):
     from . import C05
 
     C05.check(ctx)
+    # ---------------- a batch reports EVERY task it ran (one result triple per submitted task, in order)
+    bet = (model if "model" in dir() else ctx.model).module("dask/local.py").func("batch_execute_tasks")
+    ok = (all(eqv(r.value, "[execute_task(*a) for a in it]") for r in returns(bet)) and len(returns(bet)) == 1)
+    ctx.ob("CNT.batch.one-result-per-task", bet, "batch_execute_tasks returns [execute_task(*a) for a in it]: one (key, result, failed) per task of the batch", ok, "" if ok else "results of tasks that already completed in the batch are dropped when a later one fails: their posttask callbacks never fire and the profiler omits them")
 
 
 VARIANTS = [
